@@ -1,6 +1,9 @@
 """Per-property configuration of ./check: generator streams, projections onto what
 the property constrains, the rule that makes a case non-trivial, trusted base."""
-import re
+import re, os
+# VERIF_STRICT=1: every projection introduced by the neutral rounds (DESIGN 0.7) is switched off and the real crate is
+# compared with the model answer by answer - the setting under which the tie was established on the unchanged tree
+STRICT = os.environ.get("VERIF_STRICT") == "1"
 
 COMMON_TB = [
     "Lean 4.33.0 kernel (leanchecker re-check in thorough runs); axioms allowed: propext, Classical.choice, Quot.sound",
@@ -43,6 +46,8 @@ def c18_project(op, a):
     are accepted, and what a decode of arbitrary bytes yields, is constrained only on C17's domain (real values;
     compared there). So `dynser` / `dynde` answers are not compared with the model's beyond `FAIL` (false alarm on
     a neutral codec that refuses duplicate field names, demands null for unit kinds, decodes NaN as null ...)."""
+    if STRICT:
+        return _C18_MODEL.sub("", _C18_IMPL.sub("", a)) if op.startswith("dynde ") else a
     if a.startswith("FAIL"):
         return a
     if op.startswith(("dynser ", "dynde ")):
@@ -92,6 +97,8 @@ def c12_project(op, a):
     kinds) - theorem c12_decided_by_encMax - not through the way the code computes it; the numbers are compared
     by the joint rule below, not by equality with the model's mirror of the code (false alarm on a neutral
     change that sizes an enum's discriminant from its largest index instead of its variant count; DESIGN 0.4)."""
+    if STRICT:
+        return (a.split(" exact=")[0] if a.startswith("ok ") else a)
     if op.startswith("maxsize ") and a.startswith("ok "):
         return "ok"
     return a
@@ -100,6 +107,7 @@ def c12_joint(op, impl, model, stats):
     """N = the real T::POSTCARD_MAX_SIZE; model: maxSize (mirror of the code), encMax (exact supremum, proved).
     violation iff N < encMax (some value - exactWitness - does not fit: bound_iff_encMax_le), or the type is of a
     kind the property lists as tight and N > encMax (not attained)."""
+    if STRICT: return None
     if not op.startswith("maxsize "): return None
     mm = _C12_MODEL.match(model)
     if not mm or not impl.startswith("ok "): return None
@@ -121,6 +129,8 @@ def io_project(op, a):
     """reader / writer transports (C11, also inside C04 / C13): the property says a failing transport or a too-small
     scratch buffer 'produces an error'; no kind is named and how far a failing writer got is only required to be a
     prefix (harness oracle)."""
+    if STRICT:
+        return a
     if op.startswith(("rio ", "deseq ")):
         return re.sub(r"\berr [a-z-]+", "err", a)
     if op.startswith("wio ") and a.startswith("err "):
@@ -133,6 +143,8 @@ def io_equiv(op, impl, model):
     hands back more. The harness oracle has already checked every value it decoded against slice decoding, the
     consumed byte count and the slot geometry, so: equal up to the point where the MODEL fails and the
     implementation goes on; at the end, the same number of bytes delivered and at least as much scratch left."""
+    if STRICT:
+        return False
     if not op.startswith(("rio ", "deseq ")) or impl.startswith("FAIL") or model.startswith("FAIL"):
         return False
     a, b = impl.split(" | "), model.split(" | ")
@@ -155,6 +167,8 @@ def c14_project(op, a):
     """`schemaof`: the TYPE's own name is not among what C14 lists (kinds, field names and order, variant names and
     indices, arity, element types) - serde calls Range<T> "Range" - so struct / enum type names are erased before the
     model's impl tables are compared with the real SCHEMA (false alarm on a neutral renaming of the range schemas)."""
+    if STRICT:
+        return a
     if op.startswith("schemaof "):
         return _TYPE_NAME.sub(lambda m: "(" + m.group(1) + " x", a)
     return a
@@ -178,6 +192,8 @@ def c09_project(op, a):
     WHERE in the stream each call ended. Which other results are reported while the over-long segment goes by (the
     unchanged code treats its tail as a frame of its own) is not constrained, so histories with an over-long segment
     are not compared event by event (false alarm on a neutral 'skip the rest of an over-long frame' accumulator)."""
+    if STRICT:
+        return a
     if a.startswith("FAIL"):
         return a
     if op.startswith("accrep "):
@@ -190,6 +206,8 @@ def c09_project(op, a):
 def c19_project(op, a):
     """`fmt`: the property demands that rendering terminates and mentions the names (harness oracle); the exact
     text, and the helper `is_prim`, are not constrained (false alarm on a neutral change of spacing / `(T,)`)."""
+    if STRICT:
+        return a
     if op.startswith("fmt ") and a.startswith("ok "):
         return "ok"
     return a
@@ -198,7 +216,7 @@ def c05_project(op, a):
     """a Display-collected value is not 'ordinary': which error kind its storage failure is reported as is not
     named by the property; bounded-buffer contents after a failure are never compared (see check)."""
     a = a.split(" mem=")[0] if a.startswith("err") else a
-    if op.startswith("collectcap ") and a.startswith("err "):
+    if op.startswith("collectcap ") and a.startswith("err ") and not STRICT:
         return "err"
     return a
 
@@ -206,6 +224,8 @@ def c20_project(op, a):
     """`rec`: the property lets the encoder choose between push and extend ("through whichever of its push/extend
     methods the encoder chooses"), so only the concatenated payload, in order, is compared - not the call structure
     (false alarm on a neutral change that sends one-byte varints through try_push; DESIGN 0.4)."""
+    if STRICT:
+        return a
     if op.startswith("rec ") and a.startswith("ok"):
         return "ok " + "".join(c[2:] for c in a[2:].split())
     return a
